@@ -38,6 +38,14 @@ const schedMaxSteps = 20000
 func runSchedOnce(sc *schedScenario, prefix []int) (x *sched.Exec, class, detail, outcome string) {
 	inst := sc.Build()
 	x = sched.Run(prefix, schedMaxSteps, inst.OnPoint, inst.Threads...)
+	if x.Diverged != "" {
+		// The prefix was recorded by an earlier execution. Lazily built process-global state of the code
+		// under test (a cache behind a mutex that this very prefix filled) can shift the points once;
+		// a second attempt on a fresh instance finds that state settled. A divergence that persists
+		// is nondeterminism the harness does not own: an internal error, never a verdict.
+		inst = sc.Build()
+		x = sched.Run(prefix, schedMaxSteps, inst.OnPoint, inst.Threads...)
+	}
 	switch {
 	case x.Diverged != "":
 		return x, "internal-divergence", x.Diverged, ""
